@@ -999,7 +999,7 @@ def run(ctx):
     rng = ctx.rng
     os.makedirs("/var/tmp", exist_ok=True)
     tmpdir = tempfile.mkdtemp(prefix="verif-c13-", dir="/var/tmp")
-    ctx.rule = ("generated trajectories (1–4 atoms, 1–4 frames, plus LAMMPS files with 11–12 atoms for multi-digit ids; integer/fixed/exponent/signed/'5.'/'.5' literals; "
+    ctx.rule = ("generated trajectories (1–4 atoms, 1–4 frames, plus LAMMPS files with 11–12 atoms for multi-digit ids and xyz files with 10–104 atoms for multi-digit count lines; integer/fixed/exponent/signed/'5.'/'.5' literals; "
                 "compact, CP2K-like padded and randomly padded layouts; unsorted ids, 2- and 3-column box lines): "
                 "every single cut point 0..T (polls at c,T,T,T) for all of them and every pair of cut points "
                 "(c1<c2, polls at c1,c2,T,T,T) for the small ones, against the real reader object on a real growing "
@@ -1060,6 +1060,22 @@ def run(ctx):
             check_text(ctx, ep, rf, "xyz", text, frames, bounds, seqs, f"xyz{j}:{na}x{nf}:s{style}")
             if j < 2:
                 ctx.sample({"kind": "xyz", "text": text, "n_cut_sequences": len(seqs)})
+        # atom counts with two and three digits (a cut can fall strictly inside the digits of a count line — also of the
+        # very first one — and the same reader object is polled again afterwards): every single cut on the small files,
+        # on the large one every cut in the first 260 bytes, every 53rd beyond, and +-2 around every frame boundary
+        big_plan = [(12, 2, 1), (10, 3, 0)] + ([(104, 2, 1)] if ctx.quick else [(104, 2, 1), (100, 3, 2), (23, 3, 3)])
+        for j, (na, nf, style) in enumerate(big_plan):
+            text, frames, bounds = gen_xyz(rng, na, nf, style)
+            T = blen(text)
+            if T <= 1600:
+                seqs = cut_seqs(T, False)
+            else:
+                cs = set(range(0, 260)) | set(range(0, T + 1, 53)) | {T}
+                for b in bounds:
+                    cs |= {c for c in range(b - 2, b + 12) if 0 <= c <= T}
+                seqs = [[c, T, T, T] for c in sorted(cs)]
+            seqs += extra_seqs(T, bounds, rng, n_multi=4)
+            check_text(ctx, ep, rf, "xyz", text, frames, bounds, seqs, f"xyzbig{j}:{na}x{nf}:s{style}")
         for j, (na, nf, style, pairs, mp) in enumerate(lmp_plan):
             text, frames, bounds = gen_lmp(rng, na, nf, style)
             if style != 3:      # the object-state scenarios judge with the plain predicates: keep the pending class out
